@@ -247,6 +247,71 @@ def drive(cfg):
     return r
 
 
+INTERRUPTED_SUBJECTS = [
+    {'decoder': 'MatchingDecoder', 'code': 'Planar2DCode', 'size': [3, 3], 'noise': 'depol', 'p': 0.15},
+    {'decoder': 'UnionFindDecoder', 'code': 'Toric2DCode', 'size': [4, 4], 'noise': 'depol', 'p': 0.12},
+    {'decoder': 'BeliefPropagationOSDDecoder', 'code': 'Toric2DCode', 'size': [3, 3], 'noise': 'Zbias', 'p': 0.1,
+     'dec_kwargs': {'max_bp_iter': 6, 'osd_order': 0}},
+    {'decoder': 'BeliefPropagationOSDDecoder', 'code': 'RotatedPlanar2DCode', 'size': [3, 3], 'noise': 'depol', 'p': 0.1,
+     'dec_kwargs': {'max_bp_iter': 6, 'osd_order': 0, 'channel_update': True}},
+    {'decoder': 'MemoryBeliefPropagationDecoder', 'code': 'Toric2DCode', 'size': [2, 3], 'noise': 'depol', 'p': 0.1,
+     'dec_kwargs': {'max_bp_iter': 4}},
+    {'decoder': 'SweepMatchDecoder', 'code': 'Toric3DCode', 'size': [3, 3, 3], 'noise': 'depol', 'p': 0.05},
+    {'decoder': 'RotatedSweepMatchDecoder', 'code': 'RotatedPlanar3DCode', 'size': [3, 3, 2], 'noise': 'depol', 'p': 0.05},
+    {'decoder': 'XCubeMatchingDecoder', 'code': 'XCubeCode', 'size': [2, 2, 3], 'noise': 'depol', 'p': 0.06},
+    {'decoder': 'XCubeMatchingDecoder', 'code': 'XCubeCode', 'size': [3, 3, 3], 'noise': 'Z', 'p': 0.03},
+]
+
+
+@common.safe
+def drive_interrupted(cfg):
+    """A history in which some decode calls are cut short by a KeyboardInterrupt
+    (a Ctrl-C during a trial of a simulation that is then resumed): the caller's
+    array and the noise tables stay intact, and the calls that follow give what a
+    fresh decoder gives."""
+    cfg = dict(cfg)
+    tier = cfg.pop('_tier')
+    part, parts = cfg.pop('_part')
+    rng = np.random.default_rng(common.seed() + part)
+    rec = D.Recorder(cfg)
+    code, em = rec.code, rec.em
+    if not rec.construct(0):
+        return rec.record()
+    syns = [np.asarray(code.measure_syndrome(em.generate(code, cfg['p'] * (1 + j % 3), rng=rng))).ravel()
+            for j in range(40)]
+    syns = [s for s in syns if np.any(s)] or syns
+    # how many lines a decode of this kind executes
+    from .c12_points import Interrupter
+    import sys
+    probe = Interrupter(10 ** 12)
+    import contextlib
+    import io
+    sys.settrace(probe)
+    try:
+        with contextlib.redirect_stdout(io.StringIO()):
+            D.new_decoder(cfg, code, em).decode(syns[0].astype(np.uint8))
+    finally:
+        sys.settrace(None)
+    total = max(probe.n, 2)
+    n_pts = 24 if tier == 'quick' else 120
+    ks = sorted({1 + int(x) for x in np.linspace(0, total - 1, n_pts * parts)})[part::parts]
+    for j, k in enumerate(ks):
+        s = syns[j % len(syns)]
+        rec.decode(0, s.astype(np.uint8))
+        rec.interrupted_decode(0, syns[(j + 1) % len(syns)], k)
+        rec.decode(0, syns[(j + 2) % len(syns)].astype(np.uint8))
+    distinct = {s.tobytes(): s for s in syns}
+    for k, s in enumerate(distinct.values(), start=1):
+        if rec.construct(k):
+            rec.decode(k, s.astype(np.uint8))
+            rec.objs.pop(k, None)
+    r = rec.record()
+    r['_mode'] = f'history with {len(ks)} decode calls ended by KeyboardInterrupt'
+    r['_history'] = 3 * len(ks)
+    r['_fresh'] = len(distinct)
+    return r
+
+
 def run(tier):
     t0 = time.time()
     v = common.Verdict('C06')
@@ -254,6 +319,8 @@ def run(tier):
     for c in cfgs:
         c['_tier'] = tier
     recs = common.pmap(drive, cfgs, procs=15)
+    icfgs = [dict(c, _tier=tier, _part=(part, 3)) for c in INTERRUPTED_SUBJECTS for part in range(3)]
+    recs += common.pmap(drive_interrupted, icfgs, procs=15)
     recs = common.split_raised('C06', v, recs)
     for j, r in enumerate(recs):
         r['id'] = j
